@@ -39,6 +39,38 @@ type Hist struct {
 	// ClosedWithError: the write handle's Close was made to fail in this step (a fault the witness may ignore).
 	ClosedWithError bool
 	inUpdate        bool // driver faults only strike inside the request, never the harness's own snapshot reads
+	plan            *seams.SQLPlan
+}
+
+// ReadFault runs fn while the next storage READ fails once: at the persistence interface (ReadOps or the
+// reader's GetLatest) or, on SQL stores opened through the wrapping driver, at the driver (issuing the
+// query or fetching the row). It reports the point that fired ("" if fn reached none).
+func (h *Hist) ReadFault(r *rand.Rand, fn func()) string {
+	ferr := faultErrs[r.IntN(len(faultErrs))]
+	fired := ""
+	if h.plan != nil && r.IntN(2) == 0 {
+		dop := []string{seams.SQLQuery, seams.SQLNext}[r.IntN(2)]
+		h.plan.SetHook(func(gotOp string, idx int, phase string) error {
+			if fired == "" && gotOp == dop && phase == "before" {
+				fired = "driver:" + dop
+				return ferr
+			}
+			return nil
+		})
+		defer h.plan.SetHook(nil)
+	} else {
+		op := []string{seams.OpReadOps, seams.OpRGet}[r.IntN(2)]
+		h.Hook.SetHook(func(gotOp, id string) error {
+			if fired == "" && gotOp == op {
+				fired = op
+				return ferr
+			}
+			return nil
+		})
+		defer h.Hook.SetHook(nil)
+	}
+	fn()
+	return fired
 }
 
 // DrawStore picks a store kind.
@@ -100,7 +132,7 @@ func RunHistory(r *rand.Rand, o HistOpts, on func(h *Hist, s *Step, i int)) (*Hi
 		st.Close()
 		return nil, err
 	}
-	h := &Hist{Kind: kind}
+	h := &Hist{Kind: kind, plan: plan}
 	rn, err := NewRunner(u, keys, st, func(p persistence.LogStatePersistence) persistence.LogStatePersistence {
 		h.Hook = seams.NewHookStore(p)
 		return h.Hook
@@ -164,6 +196,10 @@ func RunHistory(r *rand.Rand, o HistOpts, on func(h *Hist, s *Step, i int)) (*Hi
 			// the snapshot inside Do was taken through the faulty store only for ops
 			// that are not hooked (reads), so it is valid; nothing to redo.
 			s.Ambiguous = true
+		}
+		if s.Wedged != "" {
+			h.Trace = append(h.Trace, fmt.Sprintf("%d: %s -> NEVER RETURNED (%s)", i, q, s.Wedged))
+			return h, fmt.Errorf("%w: request %d of the history (%s)", ErrWedged, i, s.Wedged)
 		}
 		snap = s.After
 		h.Trace = append(h.Trace, fmt.Sprintf("%d: %s fault=%q -> err=%v", i, q, h.FaultFired, s.Err))
